@@ -255,6 +255,19 @@ def check(case, stats=None):
             want = [(c, max(0, p - fl), min(sizes[c], p + fl + 1)) for c, p in locs]
             if w is not None and w != want:
                 out.append(Failure("C10:get_windows", {"flank": fl, "expected": want, "actual": w}))
+            # binned counts: every chromosome has its own bins of the given width (the last one possibly shorter), filled by its own locations only
+            if locs == locs_all:
+                from bionumpy.genomic_data.binned_genome import BinnedGenome
+                bs = max(1, case.get("bin_size", 3))
+
+                def binned():
+                    b = BinnedGenome(genome.get_genome_context(), bs)
+                    b.count(LocationEntry([c for c, p in locs], np.array([p for c, p in locs], dtype=int)))
+                    return {k_: np.asarray(v_).tolist() for k_, v_ in b.count_dict.items()}
+                bd = guard("BinnedGenome.count", binned)
+                want_b = {n: [sum(1 for c, p in locs if c == n and p // bs == j) for j in range((sizes[n] + bs - 1) // bs)] for n in names}
+                if bd is not None and bd != want_b:
+                    out.append(Failure("C10:binned-counts", {"bin_size": bs, "expected": want_b, "actual": bd, "locations": locs}))
             s_ = guard("locations.sorted", lambda: (lambda x: list(zip(_names(x.chromosome, names), np.asarray(x.position).tolist())))(gl.sorted()))
             want = sorted(locs, key=lambda t: (names.index(t[0]), t[1]))
             if s_ is not None and s_ != want:
@@ -422,7 +435,7 @@ def c10_case(draw, Smax):
     locs = [[ci, draw(st.sampled_from([0, size - 1, draw(st.integers(0, size - 1))]))] for ci, (n, size) in enumerate(genome) for _ in range(draw(st.integers(0, 2)))]
     locs = draw(st.permutations(locs))
     case = {"genome": genome, "filter": filt, "ivs": [list(x) for x in ivs], "locs": [list(x) for x in locs],
-            "distances": sorted({0, draw(st.integers(1, 4))}), "L": draw(st.integers(1, Smax + 2)), "flank": draw(st.integers(0, 4)),
+            "distances": sorted({0, draw(st.integers(1, 4))}), "L": draw(st.integers(1, Smax + 2)), "flank": draw(st.integers(0, 4)), "bin_size": draw(st.integers(1, 7)),
             "widen": [[draw(st.integers(0, 3)), draw(st.integers(0, 3))] for _ in range(3)]}
     if draw(st.integers(0, 2)) == 0:
         case["fasta"] = draw(st.integers(1, 9))
